@@ -42,13 +42,13 @@ xv::Scenario queue_scenario(const drv::Program& p, bool keep) {
     Q& Qr = **q;
     if (o.name == "push" || o.name == "wpush") {
       V v = E::make(o.a);
-      xv::call(o.name.c_str(), o.a);
+      if (A::strong_blocks && o.name == "push") xv::call_blocking("push", o.a); else xv::call(o.name.c_str(), o.a);
       bool ok = o.name == "push" ? A::push(Qr, std::move(v)) : A::wpush(Qr, std::move(v));
       xv::ret(ok, o.a);
       if (!ok && A::keeps_rejected) xv::ev("ev", E::id(v) == o.a ? "kept" : "lost", o.a);
     } else if (o.name == "pop" || o.name == "wpop") {
       V v{};
-      xv::call(o.name.c_str());
+      if (A::strong_blocks && o.name == "pop") xv::call_blocking("pop"); else xv::call(o.name.c_str());
       bool ok = o.name == "pop" ? A::pop(Qr, v) : A::wpop(Qr, v);
       xv::ret(ok, ok ? E::id(v) : 0);
     } else if (o.name == "opop") {
